@@ -79,7 +79,7 @@ func TestC38(t *testing.T) {
 		"Non-trivial: associated data present, or a mutation applied.")
 	defer rec.Flush(t)
 	rec.Assume("ECDSA and SHA-2 of the standard library are trusted", "ECDSA signature malleability (r, n-s) is a property of the scheme and not a mutation of this list")
-	muts := []string{"none", "none", "rechunk_ad", "flip_header_body", "flip_signature", "flip_ad", "drop_ad", "extend_ad", "reorder_ad", "other_key_same_curve", "key_other_curve", "ed25519_key", "algorithm_other_hash", "algorithm_unknown", "truncate_signature", "empty_signature"}
+	muts := []string{"none", "none", "rechunk_ad", "flip_header_body", "flip_signature", "flip_ad", "drop_ad", "extend_ad", "reorder_ad", "other_key_same_curve", "key_other_curve", "ed25519_key", "algorithm_other_hash", "algorithm_unknown", "truncate_signature", "empty_signature", "append_to_signature"}
 	req := []string{"curve_P-256", "curve_P-384", "curve_P-521", "verified", "with_timestamp"}
 	for _, m := range muts[2:] {
 		req = append(req, "mut_"+m)
@@ -175,6 +175,8 @@ func TestC38(t *testing.T) {
 			vmsg.Signature = vmsg.Signature[:rapid.IntRange(1, len(vmsg.Signature)-1).Draw(rt, "sigLen")]
 		case "empty_signature":
 			vmsg.Signature = nil
+		case "append_to_signature":
+			vmsg.Signature = append(vmsg.Signature, rapid.SliceOfN(rapid.Byte(), 1, 16).Draw(rt, "trailing")...)
 		}
 		want := c38RefVerify(vmsg, vkey, vad)
 		got, err := signed.Verify(vmsg, vkey, vad...)
